@@ -98,6 +98,9 @@ func (t ptemplate) segments() []ptemplate {
 	return segs
 }
 
+// pathNarrowings records, per builder function, a numeric slot formatted through a narrower or signed type.
+var pathNarrowings = map[string]string{}
+
 type pathEval struct {
 	p     *Prog
 	depth int
@@ -295,6 +298,39 @@ func (pe *pathEval) evalExpr(f *FuncInfo, e ast.Expr, env map[*types.Var][]ptemp
 				}
 			}
 			return res
+		case "strconv.Itoa", "strconv.FormatInt", "strconv.FormatUint":
+			// decimal formatting of a numeric slot: fine when the formatted type covers the slot's type; a conversion of
+			// an unsigned 64-bit slot to a signed or narrower type first wraps large values (recorded, reported by C20)
+			if len(x.Args) >= 1 {
+				arg := ast.Unparen(x.Args[0])
+				for {
+					cv, ok := arg.(*ast.CallExpr)
+					if !ok || len(cv.Args) != 1 {
+						break
+					}
+					tv, ok := info.Types[cv.Fun]
+					if !ok || !tv.IsType() {
+						break
+					}
+					from, to := info.TypeOf(cv.Args[0]), tv.Type
+					if fb, ok := from.Underlying().(*types.Basic); ok {
+						if tb, ok := to.Underlying().(*types.Basic); ok {
+							if (fb.Kind() == types.Uint64 || fb.Kind() == types.Uint) && tb.Kind() != types.Uint64 && tb.Kind() != types.Uint {
+								pathNarrowings[f.ID] = "formats " + exprString(cv.Args[0]) + " (" + fb.Name() + ") through " + tb.Name() + ": values above the range of " + tb.Name() + " wrap (e.g. to a negative number) and the path no longer parses back"
+							}
+						}
+					}
+					arg = ast.Unparen(cv.Args[0])
+				}
+				if id == "strconv.Itoa" || id == "strconv.FormatInt" {
+					if b, ok := info.TypeOf(arg).Underlying().(*types.Basic); ok && (b.Kind() == types.Uint64 || b.Kind() == types.Uint) {
+						// handled by the conversion loop above (Itoa takes an int, so a conversion is present)
+						_ = b
+					}
+				}
+				return pe.evalExpr(f, arg, env)
+			}
+			return pe.bad("unsupported " + id)
 		case "strings.Join":
 			if len(x.Args) == 2 {
 				if sep, ok := constString(info, x.Args[1]); ok && sep == "/" {
